@@ -84,6 +84,12 @@ CHECKS = {
          '2 400 (quick) / 40 000 (thorough) generated nestings of define / global define / multi-part define / tuple define / repeat / tuple repeat / macro-use to depth 4 with three colliding names from a pool containing builtins and generated-code helper names, each pre-bound or not; the scope object of every one of these renders inspected at exit; 102 (site, name) pairs of the reserved-name table; 640 / 12 800 Scope operation sequences (length <= 30, up to 6 linked scopes).',
          'Trusted: the 80-line reference interpreter; a global definition of a name inside an element that holds a local binding of the same name is not generated (the two clauses of the statement conflict there).',
          'DESIGN.md §3 C05'),
+ 'C07': ('model-diff',
+         'runtime oracle: generated start tags rendered by the real engine, read back by an independent strict tag scanner and compared with the merged-list reference model (ordered (name, quote, raw value) lists)',
+         'exploration',
+         '15 600 (quick) / 230 000 (thorough) rendered start tags: an exhaustive layer over <=2 static attributes (double / single quoted, unquoted, valueless) x <=2 statement entries over three names (one boolean) x all nine value classes, and a random layer with up to 5 statics (also interpolated, also unquoted-interpolated, mixed case), up to 4 entries (named in either case, repeated in another case, new names, up to two dictionary entries with overlapping / new / boolean / None-valued keys) under four boolean configurations (HTML default set, XML declaration, explicit set, empty set).',
+         'Trusted: the 70-line merged-list model; the position of a name supplied by a dictionary and the quote style of a dynamic value that replaces an unquoted / valueless static are compared loosely (the statement does not fix them); exclusions in the evidence rule.',
+         'DESIGN.md §3 C07'),
 }
 NOT_YET = {}
 
